@@ -244,9 +244,10 @@ theorem knock_requires_knock_rule (rules : AuthRules) (ev : Event) (f : Fetch) (
   obtain ⟨jr, hjr, -, hcond, -, hst, -⟩ := h
   exact ⟨hk, by simpa using hst, jr, hjr, by simpa using hcond⟩
 
-/-- The same per room version: in v7–v9 the join rule must be `knock`; in v10–v11 `knock` or
+/-- The same per room version number (every `v : Nat`, not only 1–11: the specification's rule
+variants are functions of the number): in v7–v9 the join rule must be `knock`; from v10 `knock` or
 `knock_restricted`; before v7 no knock is ever accepted. -/
-theorem knock_requires_knock_rule_by_version (v : Nat) (_hv : v ∈ Spec.Auth.versions) (ev : Event) (f : Fetch)
+theorem knock_requires_knock_rule_by_version (v : Nat) (ev : Event) (f : Fetch)
     (target : Str) (hty : ev.type = tMember) (hsk : ev.stateKey = some target)
     (hm : contentMembership ev.content = .ok mKnock)
     (h : authCheck (Spec.Auth.rulesOf v) ev f = true) :
